@@ -220,6 +220,15 @@ def run_vh(vh, args, cases, timeout=1800, env=None, hang_is_failure=False, death
             fails.append({"fail": True, "case": 0, "variant": "died", "sig": "died " + " ".join(args),
                           "detail": "the process calling into the library was killed by signal %d: %s" % (-p.returncode, p.stderr[-600:])})
             return fails, {"executions": 0, "cases": 0, "failures": len(fails)}, other
+        m = re.search(r"panicked at (%s/[^\s:]+):(\d+)" % re.escape(REPO), p.stderr or "")
+        if p.returncode == 101 and m:
+            # a panic raised INSIDE the tree under test (not in the harness) while it was fed inputs from the property's domain:
+            # that is an observation about the code, not a tooling problem
+            where = os.path.relpath(m.group(1), REPO)
+            fails.append({"fail": True, "case": 0, "variant": "library panic", "sig": "library panic in %s (%s)" % (where, args[0]),
+                          "detail": "the library panicked at %s:%s while the harness ran %s: %s" % (where, m.group(2), " ".join(args), p.stderr[-600:])})
+            import collections
+            return fails, collections.defaultdict(int, {"failures": len(fails)}), other
         log(p.stderr[-4000:])
         raise ToolError("harness %s produced no summary (exit %s)" % (args, p.returncode))
     return fails, summary, other
